@@ -378,6 +378,107 @@ def run(db: DB, rep: Report) -> None:
                       (db.loc(r), order_dep[0][0] if order_dep else "",
                        db.loc(order_dep[0][1]) if order_dep else ""))
 
+    # ---- E9b: ... nor query, through a method, an object field that the same loop is still filling
+    def fields_read(g, depth: int = 0, seen=None) -> Set[str]:
+        seen = seen if seen is not None else set()
+        if g.qualname in seen or depth > 3:
+            return set()
+        seen.add(g.qualname)
+        out = set(paths.self_attrs(g.node))
+        for c in walk_no_nested(g.node):
+            if isinstance(c, ast.Call) and isinstance(c.func, ast.Attribute) and \
+                    isinstance(c.func.value, ast.Name) and c.func.value.id in ("self", g.cls.name if g.cls else ""):
+                for h in db.resolve_call(c, g):
+                    out |= fields_read(h, depth + 1, seen)
+        return out
+
+    def fields_written(stmts, g, depth: int = 0, seen=None) -> Set[str]:
+        seen = seen if seen is not None else set()
+        out: Set[str] = set()
+        for s_ in stmts:
+            for c in ast.walk(s_):
+                if isinstance(c, ast.Call) and isinstance(c.func, ast.Attribute):
+                    recv = c.func.value
+                    if isinstance(recv, ast.Attribute) and isinstance(recv.value, ast.Name) and \
+                            recv.value.id == "self" and (c.func.attr in paths.MUTATORS or
+                                                         c.func.attr.startswith(("add_", "remove_"))):
+                        out.add(recv.attr)
+                    elif isinstance(recv, ast.Name) and recv.id == "self" and depth < 2:
+                        for h in db.resolve_call(c, g):
+                            if h.qualname not in seen:
+                                seen.add(h.qualname)
+                                out |= fields_written(h.node.body, h, depth + 1, seen)
+                elif isinstance(c, (ast.Assign, ast.AugAssign)):
+                    for tg in (c.targets if isinstance(c, ast.Assign) else [c.target]):
+                        if isinstance(tg, ast.Subscript) and isinstance(tg.value, ast.Attribute) and \
+                                isinstance(tg.value.value, ast.Name) and tg.value.value.id == "self":
+                            out.add(tg.value.attr)
+        return out
+
+    for q, f in anchors.items():
+        for r in guard_raises.get(q, []):
+            loops = [p_ for p_ in paths.parents(r, f.node) if isinstance(p_, ast.For)]
+            if not loops:
+                continue
+            lp = loops[-1]
+            written = fields_written(lp.body, f)
+            hits = []
+            for t, _ in paths.guards(r, stop=lp):
+                for c in ast.walk(t):
+                    if isinstance(c, ast.Call) and isinstance(c.func, ast.Attribute) and \
+                            isinstance(c.func.value, ast.Name) and c.func.value.id == "self":
+                        for h in db.resolve_call(c, f):
+                            both = fields_read(h) & written
+                            if both:
+                                hits.append((norm(c)[:40], sorted(both)))
+            rep.check("E9", not hits, db.loc(r), f.short, "order-state:" + (norm(r.exc)[:40] if r.exc else ""),
+                      "the guard at %s queries no object state that the loop is still building" % db.loc(r),
+                      "the legality check at %s calls %s, which reads %s - state that the same loop over the "
+                      "specification's entries is still filling: whether an illegal specification is rejected "
+                      "depends on the order in which its entries are written" %
+                      (db.loc(r), hits[0][0] if hits else "", hits[0][1] if hits else ""))
+
+    # ---- E10: "declared" means declared: the table the undeclared-tensor check looks in is
+    # filled once per entry of the Einsum's declaration, and from nothing else
+    rep.rule("E10", "the tensor table is keyed by the declaration's entries only", 1)
+    pi = db.func("teaal.ir.program.Program.__init__")
+    n_e10 = 0
+    for n in walk_no_nested(pi.node):
+        iters: List[ast.AST] = []
+        site = None
+        if isinstance(n, ast.Assign) and len(n.targets) == 1:
+            tg = n.targets[0]
+            if isinstance(tg, ast.Subscript) and norm(tg.value) in ("self.tensors", "self.decl_tensors"):
+                site = n
+                iters = [p_.iter for p_ in paths.parents(n, pi.node) if isinstance(p_, ast.For)]
+            elif norm(tg) in ("self.tensors", "self.decl_tensors") and \
+                    isinstance(n.value, (ast.DictComp, ast.Dict, ast.Call)):
+                site = n
+                if isinstance(n.value, ast.DictComp):
+                    iters = [g_.iter for g_ in n.value.generators]
+                elif isinstance(n.value, ast.Dict) and not n.value.keys:
+                    continue            # the empty table before it is filled
+                else:
+                    iters = [n.value]
+        if site is None:
+            continue
+        n_e10 += 1
+        srcs: Set[str] = set()
+        for it_ in iters:
+            nms, exprs = paths.backward_slice(pi.node, sorted(paths.load_names(it_)), with_control=False)
+            srcs |= paths.called_names([it_] + exprs)
+            srcs |= {a for e_ in [it_] + exprs for a in paths.self_attrs(e_)}
+        from_decl = "get_declaration" in srcs or "decl_tensors" in srcs
+        from_map = "get_rank_orders" in srcs
+        rep.check("E10", from_decl and not from_map, db.loc(site), pi.short, "table:" + norm(site.targets[0])[:40],
+                  "%s has one entry per declared tensor" % norm(site.targets[0])[:40],
+                  "the entries of %s are enumerated from %s: a tensor that is only named in the mapping's "
+                  "rank-order counts as declared, so 'Undeclared tensor' is no longer raised for it" %
+                  (norm(site.targets[0])[:40], sorted(srcs & {"get_rank_orders", "get_declaration", "decl_tensors"})),
+                  decided=from_map or from_decl)
+    if n_e10 < 1:
+        raise AnalysisError("Program.__init__ no longer fills self.tensors (E10)")
+
     # ---- E6 guards range over the whole collection --------------------------
     rep.rule("E6", "loops carrying a guard iterate the whole collection with no early exit "
              "ahead of the test", 5)
@@ -514,6 +615,14 @@ def mutants(db: DB):
     pt = "teaal/ir/partitioning.py"
     eq = "teaal/ir/equation.py"
     return [
+        M("shape-after-flatten guard asks the graph being built", "teaal/ir/partitioning.py",
+          "                    if source_name not in self.orig_ranks:\n                        raise ValueError(\n                            \"Shape-based",
+          "                    if self.is_flattened(source_name):\n                        raise ValueError(\n                            \"Shape-based",
+          "E9"),
+        M("tensor table also enumerated from the mapping", "teaal/ir/program.py",
+          "        for ord_name, tensor in self.decl_tensors.items():",
+          "        for ord_name, tensor in list(self.decl_tensors.items()) + [(k, Tensor(k, v)) for k, v in rank_orders.items()]:",
+          "E10"),
         Mutant("shape-after-flatten guard reads a set filled by earlier entries", [
             Edit("teaal/ir/partitioning.py", "        roots: Dict[str, List[str]] = {}\n",
                  "        roots: Dict[str, List[str]] = {}\n        flattened: Set[str] = set()\n"),
